@@ -95,6 +95,18 @@ fn handle(job: &Value, scratch: &PathBuf) -> Value {
         let _ = std::fs::create_dir_all(parent);
     }
     std::fs::write(&path, &src).unwrap();
+    // out-of-line modules of the input: {"relative/path.rs": text}
+    let mut extra_files: Vec<PathBuf> = vec![];
+    if let Some(files) = job["files"].as_object() {
+        for (rel, text) in files {
+            let p = scratch.join(rel);
+            if let Some(parent) = p.parent() {
+                let _ = std::fs::create_dir_all(parent);
+            }
+            std::fs::write(&p, text.as_str().unwrap_or("")).unwrap();
+            extra_files.push(p);
+        }
+    }
     let mut config = Config::default();
     let mut bad_opts = vec![];
     if let Some(opts) = job["opts"].as_object() {
@@ -241,6 +253,9 @@ fn handle(job: &Value, scratch: &PathBuf) -> Value {
         res["lex_out"] = lex_summary(&out_text);
     }
     let _ = std::fs::remove_file(&path);
+    for p in extra_files {
+        let _ = std::fs::remove_file(&p);
+    }
     res
 }
 
